@@ -1524,6 +1524,16 @@ def regenerate(repo: str = REPO) -> Dict[str, List[str]]:
     text, errs = gen_dsp(repo)
     write_if_changed(os.path.join(GEN_DIR, "Dsp.lean"), text)
     report["Dsp"] = errs
+    # region plug-ins (vk/regions/*.py): one generated file each
+    from . import regions as _regions
+    for mod in _regions.modules():
+        try:
+            text, errs = mod.generate(repo)
+        except Exception as ex:   # a crashing plug-in must not look like a clean translation
+            text, errs = (f"/- region {mod.REGION}: generator crashed: {str(ex).replace('-/', '- /')} -/\n"
+                          f"def region_{mod.REGION}_UNSUPPORTED : Nat := translation_failed_{mod.REGION}\n"), [f"generator crashed: {ex!r}"]
+        write_if_changed(os.path.join(GEN_DIR, f"{mod.REGION}.lean"), text)
+        report[mod.REGION] = errs
     return report
 
 
